@@ -70,3 +70,74 @@ func VerifBuildEnv(env map[string]string, pleaseLocation, userHome string, haveT
 	}
 	return c.buildEnv(target, core.BuildEnv(env), sandbox)
 }
+
+// ---------------------------------------------------------------------------------------------
+// C28 deepening: the real input-root construction and action composition, end to end, on a Client
+// that has no connection. uploadInputs/uploadInputDir/uploadInput/buildCommand/buildAction never
+// touch c.client as long as every dependency's outputs are known (SetOutputs) and every Directory
+// addChildDirs asks for is in the local directory store (StoreDirectory).
+
+// VerifClient is a Client with the fields those functions read, and nothing else.
+type VerifClient struct{ c *Client }
+
+// VerifNewClient builds the client the way New + initExec do for the fields used here.
+func VerifNewClient(state *core.BuildState, userHome string) *VerifClient {
+	c := &Client{
+		state:        state,
+		instance:     state.Config.Remote.Instance,
+		outputs:      map[core.BuildLabel]*pb.Directory{},
+		subrepoTrees: map[core.BuildLabel]*pb.Tree{},
+		shellPath:    state.Config.Remote.Shell,
+		userHome:     userHome,
+	}
+	c.platform = convertPlatform(state.Config.Remote.Platform)
+	return &VerifClient{c: c}
+}
+
+// SetOutputs records the outputs of an already-built dependency (what setOutputs ends up storing).
+func (v *VerifClient) SetOutputs(label core.BuildLabel, d *pb.Directory) {
+	v.c.outputMutex.Lock()
+	defer v.c.outputMutex.Unlock()
+	v.c.outputs[label] = d
+}
+
+// StoreDirectory puts a Directory into the client's local directory store and returns its digest.
+func (v *VerifClient) StoreDirectory(d *pb.Directory) *pb.Digest {
+	dg := v.c.digestMessage(d)
+	v.c.directories.Store(dg.Hash, d)
+	return dg
+}
+
+// UploadInputs is Client.uploadInputs with a channel that records the entries instead of sending them.
+func (v *VerifClient) UploadInputs(target *core.BuildTarget, isTest bool) (root *pb.Directory, sent []*uploadinfo.Entry, err error) {
+	ch := make(chan *uploadinfo.Entry, 64)
+	done := make(chan struct{})
+	go func() {
+		for e := range ch {
+			sent = append(sent, e)
+		}
+		close(done)
+	}()
+	root, err = v.c.uploadInputs(ch, target, isTest)
+	close(ch)
+	<-done
+	return root, sent, err
+}
+
+// BuildAction is Client.buildAction (no uploading): the Command and the action digest.
+func (v *VerifClient) BuildAction(target *core.BuildTarget, isTest, stamp bool, run int) (*pb.Command, *pb.Digest, error) {
+	return v.c.buildAction(target, isTest, stamp, run)
+}
+
+// BuildCommand is Client.buildCommand.
+func (v *VerifClient) BuildCommand(target *core.BuildTarget, inputRoot *pb.Directory, isTest, isRun, stamp bool, run int) (*pb.Command, error) {
+	return v.c.buildCommand(target, inputRoot, isTest, isRun, stamp, run)
+}
+
+// TargetPlatform is Client.targetPlatformProperties.
+func (v *VerifClient) TargetPlatform(target *core.BuildTarget) *pb.Platform {
+	return v.c.targetPlatformProperties(target)
+}
+
+// Timeout is the timeout that goes into the Action.
+func VerifTimeout(target *core.BuildTarget, isTest bool) int64 { return int64(timeout(target, isTest)) }
